@@ -14,12 +14,15 @@ import (
 )
 
 type PCLog struct {
-	logger        zerolog.Logger
-	writer        *bufio.Writer
-	file          io.WriteCloser
-	logEventChan  chan logEvent
-	wg            sync.WaitGroup
-	closer        sync.Once
+	logger       zerolog.Logger
+	writer       *bufio.Writer
+	file         io.WriteCloser
+	logEventChan chan logEvent
+	wg           sync.WaitGroup
+	closer       sync.Once
+	// openCloseMtx: a process stopped before its launch is closed by the stop
+	// request while its own goroutine may be about to open the log
+	openCloseMtx  sync.Mutex
 	isClosed      atomic.Bool
 	noMetaData    bool
 	flushEachLine bool
@@ -41,6 +44,12 @@ func NewLogger() *PCLog {
 }
 
 func (l *PCLog) Open(filePath string, config *types.LoggerConfig) {
+	l.openCloseMtx.Lock()
+	defer l.openCloseMtx.Unlock()
+	if l.isClosed.Load() {
+		// closed before it was opened: nothing will be logged any more
+		return
+	}
 	if l.file != nil {
 		log.Error().Msgf("log file for %s is already open", filePath)
 		return
@@ -152,7 +161,12 @@ func (l *PCLog) Error(message string, process string, replica int) {
 }
 
 func (l *PCLog) Close() {
+	l.openCloseMtx.Lock()
+	defer l.openCloseMtx.Unlock()
 	if l.file == nil {
+		// never opened: it stays closed, a late Open() must not leave a file
+		// and a collector behind
+		l.isClosed.Store(true)
 		return
 	}
 	l.closer.Do(func() {
